@@ -110,7 +110,7 @@ def hash_list(xs):
     return hashlib.md5('\0'.join(xs).encode()).hexdigest()[:8]
 
 
-def check_text(text, part, max_states=400):
+def check_text(text, part, max_states=400, max_depth=None):
     """BFS to closure over all query histories of one small module -> list of (sig, what)."""
     out = []
     m0 = Module(text, nc.FILE)
@@ -138,7 +138,7 @@ def check_text(text, part, max_states=400):
                             getattr(node, 'id', None) or '.' + node.attr, np(node), obs, [list(np(m0.reads[i])) for i in hist], ref[ev], text),
                         {'kind': 'text', 'text': text}))
 
-    s = e2.Search(build, list(range(n)), lambda m: m.state(), max_states=max_states).run(on_transition)
+    s = e2.Search(build, list(range(n)), lambda m: m.state(), max_states=max_states, max_depth=max_depth).run(on_transition)
     part.count('states', s.states)
     part.count('transitions', s.transitions)
     part.count('modules_closed' if not s.capped else 'modules_capped')
@@ -448,10 +448,12 @@ def unit_progs(arg):
     return part
 
 
-def unit_text(text):
+def unit_text(arg):
+    text, depth = arg
     part = Part()
     part.count('evaluations')
-    for sig, what, wit in check_text(text, part, max_states=1500):
+    # hand-written modules have 10-20 query positions: all histories up to the given length (not to closure)
+    for sig, what, wit in check_text(text, part, max_states=3000, max_depth=depth):
         part.violation(sig, what, wit)
     part.outcome(('text', text[:20], part.counters['states']))
     return part
@@ -490,7 +492,7 @@ def repo_files(tier):
 def replay(w):
     p = Part()
     if w['kind'] == 'text':
-        return [(s + w.get('suffix', ''), wh) for s, wh, _ in check_text(w['text'], p, max_states=1500)]
+        return [(s + w.get('suffix', ''), wh) for s, wh, _ in check_text(w['text'], p, max_states=3000, max_depth=3)]
     if w['kind'] == 'file':
         return [(s, wh) for s, wh, _ in check_file(w['path'], p)]
     return [(s, wh) for s, wh, _ in project_search(p, w.get('which', 'loop'))]
@@ -499,9 +501,13 @@ def replay(w):
 def run(ctx):
     ctx.level = 'model_checking'
     sp = space(ctx.tier)
-    step = 40
-    units = [(unit_progs, (ctx.tier, lo, min(len(sp), lo + step))) for lo in range(0, len(sp), step)]
-    units += [(unit_text, t) for t in CYCLIC]
+    from . import names_run
+    nl3 = len(list(names_run.loops3_family())[::40]) if ctx.quick else len(list(names_run.loops3_family()))
+    cheap = len(sp) - nl3
+    units = [(unit_progs, (ctx.tier, lo, min(cheap, lo + 40))) for lo in range(0, cheap, 40)]
+    # three nested loops cost seconds each (every nested resolution is redone): small units for load balance
+    units += [(unit_progs, (ctx.tier, lo, min(len(sp), lo + 2))) for lo in range(cheap, len(sp), 2)]
+    units += [(unit_text, (t, 2 if ctx.quick else 3)) for t in CYCLIC]
     units += [(unit_file, f) for f in sorted(set(repo_files(ctx.tier)))]
     units += [(unit_project, 'loop'), (unit_project, 'cls')]
     ctx.pmap(_dispatch, ctx.shuffled(units), chunksize=1)
